@@ -370,6 +370,39 @@ def flash_contents(V, nops):
     return cl
 
 
+def rewrite_value_id(V, ifm_depth, kw):
+    """the encoding cache identifies weights by value_id: a rewrite that changes a weight tensor's VALUES (fixup_strided_conv pads and reshapes the
+    filter of a stride-2 convolution with a shallow IFM) must give it a new value_id - its twin clone of the same constant, used by a convolution
+    that is not rewritten, keeps the old one.  The REAL fixup_strided_conv on real Operation/Tensor objects built the way the reader builds them
+    (one clone per consumer); concrete geometry per instance (a wiring lemma)."""
+    import numpy as np
+    import ethosu.vela.tflite_graph_optimiser as go
+    from ethosu.vela.operation import Op, Padding
+    from ethosu.vela.data_type import DataType
+    from ethosu.vela.test import testutil
+
+    V.int("unused", 0, 0)
+    arch = testutil.create_arch()
+    op = testutil.create_op_with_quant_tensors(Op.Conv2DBias, [1, 8, 8, ifm_depth], [1, 4, 4, 8], weights_shape=[3, kw, ifm_depth, 8], datatype=DataType.int8)
+    op.attrs.update({"strides": (1, 2, 2, 1), "stride_w": 2, "stride_h": 2, "padding": Padding.SAME, "dilation": (1, 1, 1, 1)})
+    op.op_index = 0
+    op.run_on_npu = True
+    w = op.weights
+    w.values = np.arange(int(np.prod(w.shape)), dtype=np.int64).reshape(w.shape).astype(np.int8)
+    twin = w.clone("_twin", set_unique=False)  # the second consumer's clone of the same constant: same value_id
+    old_id, old_shape = w.value_id, list(w.shape)
+    saved = go.DebugDatabase
+    go.DebugDatabase = type("DD", (), {"add_optimised": staticmethod(lambda *a: None)})
+    try:
+        go.fixup_strided_conv(op, arch, None)
+    finally:
+        go.DebugDatabase = saved
+    changed = list(op.weights.shape) != old_shape
+    if not changed:
+        return None
+    return [("rewritten weights no longer share the value_id of the constant's other clones", op.weights.value_id != old_id and twin.value_id == old_id)]
+
+
 def bias(V):
     import ethosu.vela.weight_compressor as wc
 
@@ -644,13 +677,15 @@ def idle_core(V, **params):
     return c06.pair(V, **params)
 
 
-FUNCS = {"reduced_scale_quantisation": reduced_scale_quantisation, "idle_core": idle_core, "scale_values": scale_values, "scale_quantisation": scale_quantisation, "buffering": buffering, "weight_ranges": weight_ranges, "codec_args": codec_args, "encode": encode, "cache": cache, "cache_key": cache_key, "flash_contents": flash_contents, "scale_cache_key": scale_cache_key, "bias": bias, "bias_rejects": bias_rejects}
+FUNCS = {"reduced_scale_quantisation": reduced_scale_quantisation, "idle_core": idle_core, "scale_values": scale_values, "scale_quantisation": scale_quantisation, "buffering": buffering, "weight_ranges": weight_ranges, "codec_args": codec_args, "encode": encode, "cache": cache, "cache_key": cache_key, "rewrite_value_id": rewrite_value_id, "flash_contents": flash_contents, "scale_cache_key": scale_cache_key, "bias": bias, "bias_rejects": bias_rejects}
 
 
 def instances(tier, seed):
     out = []
     for diff in ("none", "bias_values", "ifm_scale", "ofm_scale"):
         out.append(dict(key="scale_cache_key/%s" % diff, fn="scale_cache_key", params=dict(diff=diff)))
+    for d, kw in ((3, 3), (1, 3), (4, 2), (2, 5)):
+        out.append(dict(key="rewrite_value_id/d%d_k%d" % (d, kw), fn="rewrite_value_id", params=dict(ifm_depth=d, kw=kw)))
     for nops in (2, 3, 4):
         out.append(dict(key="flash_contents/%d" % nops, fn="flash_contents", params=dict(nops=nops)))
     for gname in ("weights", "biases"):
